@@ -1,6 +1,7 @@
 //! Reference specifications (independent restatements of documentation, kept as data).
 
 pub mod exemplar;
+pub mod fieldfmt;
 pub mod layout;
 
 use crate::monitor::guard;
